@@ -98,6 +98,23 @@ theorem try_panic_unreachable {c : ChainSt} (h : Reach c) :
   have := h.inv.acc_le r hr ha
   omega
 
+/-- Stretch: on the vote bookkeeping of the chain, the hub's end-block tally (handler included, its
+    writes kept or rolled back) is exactly `tallyPure` run with the power table, required power and
+    height the hub had when the tally started.  So 3. and C02 speak about `Hub.tally`. -/
+theorem hub_tally_refines_pure {h h' : Hub} {mf : Bool} {chain : String}
+    (hok : h.tally mf chain = .ok h') :
+    (h'.chain chain).lastObserved =
+      ((h.chain chain).tallyPure h.lastPower h.requiredPower h.height).1.lastObserved ∧
+    (h'.chain chain).records =
+      ((h.chain chain).tallyPure h.lastPower h.requiredPower h.height).1.records :=
+  Mhub2.hub_tally_refines_pure hok
+
+/-- 7 at hub level: the tally's only error is that panic, so from reachable bookkeeping `Hub.tally`
+    always succeeds. -/
+theorem hub_tally_never_panics {h : Hub} (mf : Bool) (chain : String) (hr : Reach (h.chain chain)) :
+    ∃ h', h.tally mf chain = .ok h' :=
+  hub_tally_total mf chain hr.inv
+
 /-- Bridge lemmas: the source expressions the model was written from. -/
 theorem fact_tally_gate : Generated.tally_gate =
     "nonce == uint64(k.GetLastObservedEventNonce(ctx, chainId))+1" := rfl
